@@ -1,16 +1,25 @@
 // C19 R19.2: tokens created during expansion do not take the white-space flag of the
-// token they stand for (they keep at_bol=true/has_space=false of a fresh tokenisation).
+// token they stand for (they keep at_bol=true/has_space=false of a fresh tokenisation,
+// or the flag the argument token had inside the invocation).
 // Replay:  chibicc -E replays/C19-created-token-flags.c   vs   gcc -E -P replays/C19-created-token-flags.c
 // expected (gcc)                      actual (chibicc, pinned tree)
-//   const char *a = "a 13";             const char *a = "a13";       dynamic macro (__LINE__) loses has_space
-//   const char *p = "1 \"b\"";          const char *p = "1\"b\"";    token made by # loses has_space
-//   const char *q = "1 yz";             const char *q = "1yz";       token made by ## loses has_space
-// (and -E breaks the line before each such token: `int d = 1<newline>16;`)
+//   const char *a = "a 19";             const char *a = "a19";       dynamic macro (__LINE__) loses has_space
+//   const char *s = "1 \"b\"";          const char *s = "1\"b\"";    token made by # loses has_space
+//   const char *p = "1 xz";             const char *p = "1xz";       token made by ## loses has_space of its left operand
+//   const char *c = "1 yz";             const char *c = "1yz";       argument substituted as left operand of ## keeps its own flag
+//   const char *e = "1 z";              const char *e = "1z";        right operand copied for an empty left operand keeps its own flag
+//   const char *f = "1 x";              const char *f = "1x";        (same arm, right operand is not a parameter)
+// (and -E breaks the line before each freshly tokenised token: `int d = 1<newline>25;`)
 #define S(x) #x
 #define XS(x) S(x)
 #define S2(x) 1 #x
+#define P(b) 1 x##b
 #define C(a,b) 1 a##b
+#define E2(a) 1 a##x
 const char *a = XS(a __LINE__);
-const char *p = XS(S2(b));
-const char *q = XS(C(y,z));
+const char *s = XS(S2(b));
+const char *p = XS(P(z));
+const char *c = XS(C(y,z));
+const char *e = XS(C(,z));
+const char *f = XS(E2());
 int d = 1 __LINE__;
